@@ -13,7 +13,8 @@ EXTENDS JURef
 
 CONSTANTS
     Inputs,     \* set of parent tuples to explore (model checking)
-    Configs     \* set of configurations [kind, edge, n, fill, tol, on, onof]
+    Configs,    \* set of configurations [kind, edge, n, fill, tol, on, onof]
+    MaxBarriers \* bound on barrier messages (model checking)
 
 VARIABLES
     cfg, parents, idx, closed, finished, out,    \* as in Union.tla
@@ -21,10 +22,11 @@ VARIABLES
     jlow,     \* JoinNode.lowMarks: <<src, on-group>> -> rounded time
     jmatch,   \* JoinNode.matchGroupsBuffer: on-group -> queue of less specific points
     jspec,    \* JoinNode.specificGroupsBuffer: on-group -> queue of specific points
-    jrep      \* JoinNode.reported (allReported == jrep = Srcs)
+    jrep,     \* JoinNode.reported (allReported == jrep = Srcs)
+    nbar      \* barrier messages so far
 
 shared == <<cfg, parents, idx, closed, finished, out>>
-jvars == <<shared, jg, jlow, jmatch, jspec, jrep>>
+jvars == <<shared, jg, jlow, jmatch, jspec, jrep, nbar>>
 
 N == Len(parents)
 Srcs == 1..N
@@ -165,7 +167,7 @@ JInit ==
     /\ jg = [x \in {} |-> NewGroup]
     /\ jlow = [x \in {} |-> 0]
     /\ jmatch = [x \in {} |-> <<>>] /\ jspec = [x \in {} |-> <<>>]
-    /\ jrep = {}
+    /\ jrep = {} /\ nbar = 0
 
 (* JoinNode.Point / BufferedBatch(src, m) = doMessage *)
 JDeliver(s) ==
@@ -180,12 +182,12 @@ JDeliver(s) ==
                IN /\ jg' = a.groups /\ out' = out \o a.outs
                   /\ UNCHANGED <<jlow, jmatch, jspec, jrep>>
     /\ idx' = [idx EXCEPT ![s] = @ + 1]
-    /\ UNCHANGED <<cfg, parents, closed, finished>>
+    /\ UNCHANGED <<cfg, parents, closed, finished, nbar>>
 
 JClose(s) ==
     /\ ~closed[s] /\ idx[s] = Len(parents[s])
     /\ closed' = [closed EXCEPT ![s] = TRUE]
-    /\ UNCHANGED <<cfg, parents, idx, finished, out, jg, jlow, jmatch, jspec, jrep>>
+    /\ UNCHANGED <<cfg, parents, idx, finished, out, jg, jlow, jmatch, jspec, jrep, nbar>>
 
 (* JoinNode.Finish: every group emits all its sets (Go map order: any order;   *)
 (* the model takes one, the properties below do not depend on it).             *)
@@ -213,9 +215,30 @@ JFinish ==
        IN /\ jg' = r.groups /\ out' = out \o a.outs \o r.outs
           /\ jspec' = [og \in DOMAIN jspec |-> <<>>]
     /\ finished' = TRUE
-    /\ UNCHANGED <<cfg, parents, idx, closed, jlow, jmatch, jrep>>
+    /\ UNCHANGED <<cfg, parents, idx, closed, jlow, jmatch, jrep, nbar>>
 
-JNext == (\E s \in Srcs : JDeliver(s) \/ JClose(s)) \/ JFinish
+(* JoinNode.Barrier(src, b) -> joinGroup.Barrier: parent s promises that it    *)
+(* will send nothing older than tb in group gid any more (a barrier node        *)
+(* upstream, e.g. barrier().idle()).  head[s] moves to the rounded barrier      *)
+(* time and the group emits what that releases; oldestTime is NOT touched       *)
+(* (before the fix - KNOWN_FINDINGS.txt, fixed: C12 barrier - it was set to     *)
+(* the barrier time, no key of sets: nil dereference on the next emit).         *)
+(* Truthful barriers only: tb lies between what s has sent and will send.       *)
+JBarrier(s, gid, tb) ==
+    /\ ~cfg.on /\ ~closed[s] /\ nbar < MaxBarriers
+    /\ \A k \in DOMAIN parents[s] : parents[s][k].g = gid =>
+            IF k <= idx[s] THEN parents[s][k].t <= tb ELSE tb <= parents[s][k].t
+    /\ LET g == IF gid \in DOMAIN jg THEN jg[gid] ELSE NewGroup
+           g1 == [g EXCEPT !.head[s] = RT(tb)]
+           r == Emit(gid, g1, OnlyReady(g1))
+       IN /\ jg' = [x \in DOMAIN jg \cup {gid} |-> IF x = gid THEN r.g ELSE jg[x]]
+          /\ out' = out \o r.outs
+    /\ nbar' = nbar + 1
+    /\ UNCHANGED <<cfg, parents, idx, closed, finished, jlow, jmatch, jspec, jrep>>
+
+JNext == \/ \E s \in Srcs : JDeliver(s) \/ JClose(s)
+         \/ JFinish
+         \/ \E s \in Srcs, gid \in GroupsOf(parents), tb \in 1..4 : JBarrier(s, gid, tb)
 JSpec == JInit /\ [][JNext]_jvars
 
 ---------------------------------------------------------------------------
